@@ -10,11 +10,13 @@ The Coq side (Props/C28.v) states "model input is never Internal" for the compon
 evaluator + packing (C27's model), `#if` evaluation (C26's model), the constant folder (C38) and a new small model of
 case-label / enumerator handling (Model/CSwitchEnum.v).
 """
+import hashlib
 import json
 import os
 import random
 import sys
 import time
+import zlib
 
 sys.path.insert(0, os.path.dirname(os.path.abspath(__file__)))
 from vlib import OkV, Diag, Internal, TieBroken, REPO, VERIF  # noqa: E402
@@ -49,6 +51,21 @@ ASSUMPTIONS = ['CompilerError (and TaskError raised from one) is the diagnostic 
                'a program that exceeds the per-program time limit is not a violation (machine is shared)']
 
 CORPUS = os.path.join(os.path.dirname(os.path.abspath(__file__)), 'c28_corpus.json')
+EXPECT = os.path.join(os.path.dirname(os.path.abspath(__file__)), 'c28_expect.json')
+DETERMINISTIC = ('c-template', 'c-constctx', 'c3-template', 'c-boundary')   # program text does not depend on the seed
+
+
+def task_sha(t):
+    return hashlib.sha1(('%s|%s|%s' % (t['api'], t['march'], t['src'])).encode('utf-8', 'replace')).hexdigest()[:12]
+
+
+def load_expect():
+    """{sha: 'o' | 'd'}: outcome (ok / diagnostic) of the deterministic programs when the file was recorded
+    (tools/props/c28_mkknown.py). Such a program ending in an internal error now is a regression even when its
+    (exception, function) class is a known finding for OTHER inputs."""
+    if os.path.exists(EXPECT):
+        return json.load(open(EXPECT))
+    return {}
 
 
 # ------------------------------------------------------------------ regen / Coq side
@@ -143,7 +160,7 @@ def minimise(runner, task, key, budget=260):
 
 
 # ------------------------------------------------------------------ program streams
-def streams(ctx):
+def streams(ctx, only_deterministic=False):
     """-> [task] (without ids)"""
     # own generator: the program stream of (tier, seed) does not depend on what else consumed ctx.rng, so that
     # bootstrap() and ./check enumerate the same programs
@@ -161,6 +178,8 @@ def streams(ctx):
     n_c3 = 900 if deep else 60
     n_mut = 1300 if deep else 80
     n_mut3 = 600 if deep else 40
+    if only_deterministic:
+        n_c = n_c3 = n_mut = n_mut3 = 0
     valid_c = []
     for i in range(n_c):
         src = c28_gen.gen_c(rng)
@@ -184,12 +203,16 @@ def streams(ctx):
         tpl = [x for j, x in enumerate(tpl) if (j + o) % 3 == 0]
         cc_ = [x for j, x in enumerate(cc_) if (j + o) % 8 == 0]
         tpl3 = [x for j, x in enumerate(tpl3) if (j + o) % 3 == 0]
-    for i, (k, src) in enumerate(tpl):
-        add('c', 'c_to_ir', src, 'c-template', i)
-    for i, (k, src) in enumerate(cc_):
-        add('c', 'c_to_ir', src, 'c-constctx', i)
-    for i, (k, src) in enumerate(tpl3):
-        add('c3', 'c3_to_ir', src, 'c3-template', i, includes=[c28_c3.BSP])
+    def h(src):      # target chosen by the text, so that a program always meets the same data model
+        return zlib.crc32(src.encode('utf-8', 'replace'))
+    for (k, src) in tpl:
+        add('c', 'c_to_ir', src, 'c-template', h(src))
+    for (k, src) in cc_:
+        add('c', 'c_to_ir', src, 'c-constctx', h(src))
+    for (k, src) in tpl3:
+        add('c3', 'c3_to_ir', src, 'c3-template', h(src), includes=[c28_c3.BSP])
+    for (k, src) in c28_bad.boundary_literals():      # always in full: limits of every literal kind
+        add('c', 'c_to_ir', src, 'c-boundary', 0, march=['x86_64', 'arm', 'msp430'][h(src) % 3], opt=0)
     return tasks
 
 
@@ -213,6 +236,8 @@ def search(ctx, nproc=4):
     tasks += streams(ctx)
     stats = {}
     found = {}       # key3 -> [(len, task, out)]
+    regress = {}     # key3 -> [(len, task, out)] for programs recorded as ok / diagnostic
+    expect = load_expect()
     with R.Runner(nproc) as runner:
         res = runner.run_many(tasks)
         seen_src = set()
@@ -222,6 +247,9 @@ def search(ctx, nproc=4):
             if t['src'] not in seen_src:
                 seen_src.add(t['src'])
             if o['status'] == 'internal':
+                if t['kind'] in DETERMINISTIC and expect.get(task_sha(t)) in ('o', 'd'):
+                    regress.setdefault(key3(t, o), []).append((len(t['src']), t, o))
+                    continue
                 found.setdefault(key3(t, o), []).append((len(t['src']), t, o))
         ctx.cov['evaluations'] += len(tasks)
         ctx.cov['distinct_nontrivial'] = len(seen_src)
@@ -244,6 +272,20 @@ def search(ctx, nproc=4):
                     if o2.get('status') == 'internal' and key3(t, o2) == key:
                         o, minimised = o2, True
             ctx.violation(make_rec(t, o, minimised))
+        for key in sorted(regress):
+            ln, t, o = sorted(regress[key], key=lambda x: x[0])[0]
+            was = {'o': 'compiled', 'd': 'rejected with a CompilerError'}[expect[task_sha(t)]]
+            t = minimise(runner, t, key, 120)
+            o2 = runner.run_one(t)
+            if o2.get('status') == 'internal' and key3(t, o2) == key:
+                o = o2
+            rec = make_rec(t, o, True)
+            rec['class'] += '-regression'
+            rec['key'] = 'regression:' + rec['key']
+            rec['expected'] = 'this program %s when tools/props/c28_expect.json was recorded (%d programs regress ' \
+                              'into this class)' % (was, len(regress[key]))
+            ctx.violation(rec)
+        ctx.cov['stages']['search']['regressions'] = {('%s@%s/%s' % k): len(v) for k, v in regress.items()}
         for t, o in zip(tasks[:nw], res[:nw]):
             if o['status'] != 'internal':
                 ctx.log('witness no longer fails (fixed?): %s -> %s' % (t['witness_of'], o['status']))
@@ -363,6 +405,11 @@ def bootstrap(seeds=(0,), tier='quick', budget=200):
     import vlib
     vlib.ensure_repo_on_path()
     corpus = {tuple(c['key']): c for c in load_corpus()}
+    with R.Runner(4) as runner:      # stale witnesses (defect fixed meanwhile) must not shadow new ones of the same class
+        ws = list(corpus.values())
+        for c, o in zip(ws, runner.run_many([dict(c['task']) for c in ws])):
+            if not (o['status'] == 'internal' and list(key3(c['task'], o)) == c['key']):
+                del corpus[tuple(c['key'])]
     for seed in seeds:
         ctx = vlib.Ctx('C28boot', tier, seed)
         tasks = streams(ctx)
